@@ -5,7 +5,7 @@ import ast
 import textwrap
 
 from harness import impl
-from harness.common import rng, short
+from harness.common import quick_scale, rng, short
 from harness.gen import xonshgen
 
 
@@ -167,7 +167,7 @@ BEFORE = ["", "p = 0\n", "if c:\n    d = 1\n"]
 
 def build_inputs(tier):
     r = rng("C07")
-    N = 1 if tier == "quick" else 60
+    N = quick_scale() if tier == "quick" else 60
     cases = []
     for _ in range(600 * N):
         x, fn, written = xonshgen.gen_call_macro(r)
